@@ -42,7 +42,9 @@ def handle (cur : Option Prog) (line : String) : Option Prog × String :=
   | "eval" :: ins :: orc =>
     match cur, parseNats ins, orc.mapM parseOracle with
     | some pr, some ins, some tbl =>
-      let lib : Libm := fun n a => (tbl.find? fun e => e.1 == n && e.2.1 == a).map (·.2.2)
+      -- NaN operands/results are canonicalised on both sides (one NaN in the model)
+      let cn (b : Nat) : Nat := if isNaNBits pr.fmt b then pr.fmt.nanBits else b
+      let lib : Libm := fun n a => (tbl.find? fun e => e.1 == n && e.2.1.map cn == a.map cn).map (fun e => cn e.2.2)
       match pr.eval lib ins with
       | some outs => (cur, " ".intercalate (outs.map (showVal pr.fmt)))
       | none => (cur, "stuck")
